@@ -36,9 +36,14 @@ open Galaxy Galaxy.Plugin
     the lister and then the API server and compares UIDs.  (`facts` is what `gxdrv_plugin` runs with.) -/
 theorem fact_plugin_shape : Galaxy.Plugin.facts = Facts.good := by decide
 
-/-- Filter, Bind, unbind, Release, syncPodIP and the resync closure take `lockPod` before their first IPAM use -
-    the reason one pod name's operations are atomic moves of the model. -/
-theorem fact_entry_points_hold_pod_lock : Generated.Plugin.allUnderPodLock = true := by decide
+/-- The per-pod key mutex serialises the operations on one pod name (why they are atomic moves of the model): Filter, Bind,
+    unbind, Release, syncPodIP and the resync closure take `lockPod` before their first IPAM use; nothing that concerns
+    the pod's key (IPAM, apiserver, provider, or a helper doing so) runs before that call; and all of them lock the SAME
+    key - `lockPod(name, namespace)` = "<namespace>_<name>", called with (…Name, …Namespace) in that order.  (The harness
+    checks the same thing dynamically: lock-exclusion probe and the two kind=schedule replays.) -/
+theorem fact_entry_points_hold_pod_lock :
+    Generated.Plugin.allUnderPodLock = true ∧ Generated.Plugin.noKeyAccessBeforePodLock = true ∧
+      Generated.Plugin.podLockKeyUniform = true := by decide
 
 /-- Bind takes the pod object (and its UID) from the pod lister - the model's `bind` reads `vPods`. -/
 theorem fact_bind_reads_pod_from_lister : Generated.Plugin.bindReadsPodFromLister = true := by decide
